@@ -484,6 +484,15 @@ def body(chk):
       chk.machinery_failure(f'Sched.tla with the re-check fails {mc.error_name}')
     if not recheck and mc.ok:
       chk.machinery_failure('Sched.tla as implemented no longer exhibits the recorded double-forward: re-align spec and known_findings')
+  if chk.tier == 'thorough':
+    for consts in (dict(Tasks={'t1', 't2', 't3'}, Workers={'w1', 'w2'}, L=2, Budget=3, Threshold=3, UsableWorker='w1', RecheckDone=True),
+                   dict(Tasks={'t1', 't2'}, Workers={'w1', 'w2', 'w3'}, L=2, Budget=3, Threshold=2, UsableWorker='w1', RecheckDone=True),
+                   dict(Tasks={'t1', 't2', 't3'}, Workers={'w1', 'w2', 'w3'}, L=1, Budget=4, Threshold=1, UsableWorker='w2', RecheckDone=True)):
+      mc = tlc.run('dist', 'Sched', tlc.cfg_text(constants=consts, invariants=['StateExactlyOnce', 'StateAtMostOnce', 'OutputsAtLeastOnce'],
+                                                 properties=['ErrorSurfaces', 'Termination']), timeout=3000)
+      chk.add_tlc(mc, f"Sched/thorough/{len(consts['Tasks'])} tasks {len(consts['Workers'])} workers budget {consts['Budget']}")
+      if not mc.ok:
+        chk.machinery_failure(f'Sched.tla with the re-check fails {mc.error_name} for {consts}')
   # the design counter-example is decided on the real code
   forced_window(chk)
   death_after_completion(chk)
